@@ -575,8 +575,12 @@ func (o *Orchestrator) Finish() int {
 		},
 	}
 	eb, _ := json.MarshalIndent(ev, "", " ")
-	os.MkdirAll(filepath.Join(o.Root, "evidence"), 0o755)
-	os.WriteFile(filepath.Join(o.Root, "evidence", id+".json"), eb, 0o644)
+	evDir := filepath.Join(o.Root, "evidence")
+	if d := os.Getenv("VERIF_EVIDENCE_DIR"); d != "" {
+		evDir = d // runs against scratch copies of the repository never overwrite the registered evidence
+	}
+	os.MkdirAll(evDir, 0o755)
+	os.WriteFile(filepath.Join(evDir, id+".json"), eb, 0o644)
 
 	fmt.Printf("%s %s seed=%d: evaluated=%d distinct_nontrivial=%d discarded=%d violations=%d known=%d inconclusive=%d wall=%.1fs\n",
 		id, o.Tier, o.Seed, o.Sum.Evaluations, len(o.fps), o.Sum.Discarded, nViol, len(knownHit), len(o.inconclusive), time.Since(o.Start).Seconds())
